@@ -258,6 +258,27 @@ fn main() {
         "replay" => {
             let text = std::fs::read_to_string(&args[2]).expect("read replay file");
             let generic: serde_json::Value = serde_json::from_str(&text).expect("parse replay file");
+            if generic["kind"].as_str() == Some("sequence") {
+                let check = hist::parse_check(generic["property"].as_str().unwrap_or("C06")).expect("property");
+                let seed = generic["seed"].as_u64().unwrap_or(1);
+                let order: Vec<u64> = generic["order"].as_array().map(|a| a.iter().filter_map(|x| x.as_u64()).collect()).unwrap_or_default();
+                driver::warm_up();
+                let mut last = None;
+                for i in &order {
+                    let (_, o) = hist::run_seed(check, seed, *i);
+                    last = o.outcome.violation;
+                }
+                match last {
+                    Some(v) => {
+                        println!("REPRODUCED property={} oracle={} step={} op={}\n  what={} (after {} preceding runs in the same process)\n  got ={}\n  want={}", v.property, v.oracle, v.step, v.op, v.what, order.len() - 1, v.got, v.want);
+                        std::process::exit(1);
+                    }
+                    None => {
+                        println!("no violation");
+                        return;
+                    }
+                }
+            }
             if generic["kind"].as_str() == Some("isolation") {
                 // run the listed runs in order in this process; compare the last one with itself run alone
                 let check = hist::parse_check(generic["property"].as_str().unwrap_or("C06")).expect("property");
